@@ -7,6 +7,7 @@ semantics) and `FDA.Select` (selection / iteration / concatenation over lists of
 label-keyed dictionaries), the functions `Drivers/C13.lean` evaluates.
 -/
 import FDAProofs.Lemmas.Select
+import FDAModel.Generated.ConcatLabels
 
 namespace C13
 open FDA.Dict FDA.Slice FDA.Select
@@ -152,6 +153,114 @@ theorem select_rejects {d : D α} {ix : Index} (h : (resolve d.length ix).positi
   | many ps => rw [hr] at h; cases h
   | indexError => exact Or.inl rfl
   | valueError => exact Or.inr rfl
+
+/-- REFINEMENT of the Python-level slice model to plain `List` operations: selecting
+`rows[start:stop:step]` is `filterMap` of the rows over the arithmetic progression `s + i·st`,
+`i < len(range(s, e, st))`, where `(s, e, st) = slice.indices(n)`. -/
+theorem slice_refines_list {rows r : List α} {a b c : Option Int} (h : denseGet rows (.slice a b c) = .ok r) :
+    ∃ s e st, sliceIndices rows.length a b c = some (s, e, st) ∧
+      r = (List.range (rangeLen s e st)).filterMap fun (i : Nat) => rows[(s + (i : Int) * st).toNat]? := by
+  simp only [denseGet, resolve] at h
+  cases hs : slicePos rows.length a b c with
+  | none => rw [hs] at h; cases h
+  | some ps =>
+    rw [hs] at h
+    cases h
+    unfold slicePos at hs
+    cases hi : sliceIndices rows.length a b c with
+    | none => rw [hi] at hs; cases hs
+    | some t =>
+      obtain ⟨s, e, st⟩ := t
+      rw [hi] at hs
+      simp only [Option.map_some, Option.some.injEq] at hs
+      subst hs
+      refine ⟨s, e, st, rfl, ?_⟩
+      unfold rangeList
+      rw [List.map_map]
+      exact pick_eq_filterMap_range rows _ _
+
+/-- … and for a unit step it is `drop` / `take`: `rows[s:e] = (rows.drop s).take (e − s)` for
+`0 ≤ s ≤ e ≤ n`. -/
+theorem slice_unit_step_drop_take (rows : List α) (s e : Nat) (hse : s ≤ e) (he : e ≤ rows.length) :
+    denseGet rows (.slice (some s) (some e) none) = .ok ((rows.drop s).take (e - s)) := by
+  have hi : sliceIndices rows.length (some (s : Int)) (some (e : Int)) none = some ((s : Int), (e : Int), 1) := by
+    unfold sliceIndices
+    simp only [Option.getD_none]
+    have h1 : ¬ ((s : Int) < 0) := by omega
+    have h2 : ¬ ((e : Int) < 0) := by omega
+    by_cases hs : (s : Int) ≥ (rows.length : Int)
+    · have : s = rows.length := by omega
+      have : e = rows.length := by omega
+      subst_vars
+      simp
+    · by_cases he' : (e : Int) ≥ (rows.length : Int)
+      · have : e = rows.length := by omega
+        subst this
+        simp [h1, hs]
+      · simp [h1, h2, hs, he']
+  have hlen : rangeLen (s : Int) (e : Int) 1 = e - s := by
+    unfold rangeLen
+    simp only [show (1 : Int) > 0 by decide, if_true, Int.ediv_one]
+    split <;> omega
+  simp only [denseGet, resolve, slicePos, hi, Option.map_some, rangeList, hlen, List.map_map]
+  have : ((List.range (e - s)).map (Int.toNat ∘ fun (i : Nat) => (s : Int) + (i : Int) * 1)) = (List.range (e - s)).map (s + ·) := by
+    apply List.map_congr_left
+    intro i _
+    simp only [Function.comp]
+    omega
+  rw [this, pick_consecutive rows s (e - s) (by omega)]
+
+example : denseGet [10, 11, 12, 13, 14] (.slice (some 1) (some 4) none) = .ok [11, 12, 13] := by decide
+
+/-- `rows[::-1]` is the reversed list (dense / basis data; every component of a multivariate object). -/
+theorem dense_get_reversed (rows : List α) :
+    denseGet rows (.slice none none (some (-1))) = .ok rows.reverse := by
+  simp only [denseGet, resolve, slice_reversed, pick_reverse, pick_range]
+
+/-- Boolean masks (NumPy semantics on the first axis): the mask needs one entry per observation
+(`IndexError` otherwise, except that NumPy lets an empty mask through) and keeps exactly the rows whose entry is `True`, in order — the same
+rows as the integer index array of the `True` positions. -/
+theorem mask_select {rows : List α} {mask : List Bool} :
+    (mask ≠ [] → mask.length ≠ rows.length → denseGetMask rows mask = .error .indexError) ∧
+    (mask.length = rows.length →
+      denseGetMask rows mask = .ok ((rows.zip mask).filterMap fun p => if p.2 then some p.1 else none) ∧
+      denseGetMask rows mask = denseGet rows (.arr ((maskPos mask).map fun (p : Nat) => (p : Int)))) := by
+  constructor
+  · intro hm h
+    have : mask.isEmpty = false := by cases mask <;> simp_all
+    simp [denseGetMask, h, this]
+  · intro h
+    have h1 : denseGetMask rows mask = .ok (pick rows (maskPos mask)) := by
+      cases mask with
+      | nil => simp [denseGetMask, maskPos, maskPosFrom, pick]
+      | cons b t => simp [denseGetMask, h]
+    refine ⟨?_, ?_⟩
+    · rw [h1]
+      have := maskPosFrom_pick 0 [] rows mask rfl h
+      simp only [List.nil_append] at this
+      unfold maskPos; rw [this]
+    · rw [h1]
+      have hlt : ∀ p ∈ maskPos mask, p < rows.length := by
+        intro p hp
+        have := maskPosFrom_lt 0 mask p hp
+        omega
+      have harr : arrPos rows.length ((maskPos mask).map fun (p : Nat) => (p : Int)) = some (maskPos mask) := by
+        unfold arrPos
+        generalize maskPos mask = ps at hlt
+        induction ps with
+        | nil => rfl
+        | cons p ps ih =>
+          rw [List.map_cons, List.mapM_cons, ih (fun q hq => hlt q (List.mem_cons_of_mem _ hq))]
+          have hp := hlt p List.mem_cons_self
+          have : intPos rows.length (p : Int) = some p := by
+            unfold intPos
+            have h0 : (0 : Int) ≤ (p : Int) := Int.natCast_nonneg p
+            have h1 : (p : Int) < (rows.length : Int) := by exact_mod_cast hp
+            simp [h0, h1]
+          rw [this]; rfl
+      simp only [denseGet, resolve, harr]
+
+example : denseGetMask [10, 11, 12] [true, false, true] = .ok [10, 12] := by decide
 
 /-- Multivariate data: the index is applied to every component (same positions everywhere) and the
 result is only returned when all components still have the same number of observations. -/
@@ -313,6 +422,14 @@ theorem concat_nobs_partial (pieces : List (D α)) (h : ∀ d ∈ pieces, Canoni
 
 example : (concatImpl [[((0 : Int), "a")], [(0, "b"), (1, "c")], [(0, "d")], [(0, "e")]]).length = 5 := by decide
 
+/-- The label arithmetic read from the source by the translator (`Generated/ConcatLabels.lean`,
+re-generated from `argvals.py` / `values.py` on every run) is the hand-written `concatImpl`: the
+model of the open finding `C13-concat-labels` is re-checked against what the source says now. -/
+theorem concat_source_tie (pieces : List (D α)) :
+    FDA.Generated.ConcatLabels.concatArgvals pieces = concatImpl pieces ∧
+      FDA.Generated.ConcatLabels.concatValues pieces = concatImpl pieces :=
+  ⟨rfl, rfl⟩
+
 /-- … hence, on such pieces, every grouping agrees for the code as well. -/
 theorem concat_assoc_partial (groups : List (List (D α))) (h : ∀ g ∈ groups, ∀ d ∈ g, Canonical d) :
     concatImpl (groups.map concatImpl) = concatImpl groups.flatten := by
@@ -412,6 +529,17 @@ theorem first_class_concat (pieces : List (D α)) : concatSpec pieces = concatSp
   apply List.map_congr_left
   intro d _
   simp only [Function.comp, relabel, vals_fresh]
+
+/-- `first_class` for concatenations: a concatenation of freshly built pieces (as coded) *is* the
+freshly built dataset of the contents in order, so every per-observation analysis gives on it what
+it gives on that fresh dataset, and selecting from it selects by position from the contents. -/
+theorem first_class_concat_impl (f : Nat → α → β) (pieces : List (D α)) (h : ∀ d ∈ pieces, Canonical d) :
+    concatImpl pieces = fresh (pieces.map vals).flatten ∧
+      Canonical (concatImpl pieces) ∧
+      perObs f (concatImpl pieces) = some (((pieces.map vals).flatten).zipIdx.map fun p => f p.2 p.1) := by
+  have h1 : concatImpl pieces = fresh (pieces.map vals).flatten := concat_pieces_partial pieces h
+  refine ⟨h1, by rw [h1]; exact canonical_fresh _, ?_⟩
+  rw [first_class_per_obs, h1, vals_fresh]
 
 /-! ## The pristine tree (documentation of the defects the repair `c13b` removes) -/
 
